@@ -116,3 +116,14 @@ def adamwZeroStep (lr wd eps p : α) : α :=
 
 end
 end USModel
+
+namespace USModel
+section
+variable {α : Type} [Add α] [Sub α] [Mul α] [Div α] [Neg α] [NatCast α] [Transc α]
+
+/-- First `torch.optim.Adam`/`AdamW` step (no weight decay): after bias correction the moments
+    are `m̂ = g`, `v̂ = g²`, so the parameter moves by `−lr · g / (√(g²) + eps)`. -/
+def adamFirstStep (lr eps g : α) : α := -(lr * (g / (Transc.sqrt (g * g) + eps)))
+
+end
+end USModel
